@@ -175,6 +175,9 @@ Definition srec_toks (s : store) (r : srec) : list tok :=
 Definition s_obs (s : store) : list (N * list tok) * nat * bool :=
   (map (fun x => (fst x, srec_toks s (snd x))) (srecs s), instances (alive s) (stcall s), false).
 
+(* the specification has no VM states *)
+Definition s_noop (t : N) (s : store) : store := s.
+
 Definition spec_run (ops : list op) : list obs :=
-  grun store store_init s_end s_kill s_kill s_spawn s_spawned s_begin s_finish s_alive
+  grun store store_init s_end s_kill s_noop s_noop s_noop s_spawn s_spawned s_begin s_finish s_alive
        s_copy s_same s_same s_destroy s_assign s_massign s_reset s_obs ops.
